@@ -207,6 +207,26 @@ def check_write_funnel(ctx, F):
                 touches = any(H.tag(y) == "local" and y[1] == path_param for y in H.walk(recv))
                 if reads and touches and H.tag(recv) in ("call", "mcall") and (H.call_path(recv) or "").endswith("fs::read_to_string"):
                     ctx.violate("fs.missing-target", fn["path"], f"{fn['path']} unwraps the read of its own target file: when a generated file has been deleted the generator aborts instead of regenerating it", fn["file"], fn["line"])
+    # files opened for writing must be truncated (or created fresh): otherwise a shorter new text keeps the old tail
+    k = 0
+    for fn in F.all("fn", lambda p: p.startswith("crate::")):
+        if fn.get("hir") is None or fn["path"].startswith(OUT_OF_SCOPE):
+            continue
+        for x in H.walk(fn["hir"]):
+            if H.tag(x) == "mcall" and x[3] == "std::fs::OpenOptions::open":
+                k += 1
+                chain = set()
+                y = H.strip(H.mcall(x)["recv"])
+                while H.tag(y) == "mcall":
+                    mc = H.mcall(y)
+                    arg = H.strip(mc["args"][0]) if mc["args"] else None
+                    if arg is not None and H.tag(arg) == "lit" and arg[2] == "true":
+                        chain.add(mc["name"])
+                    y = H.strip(H.strip_refs(mc["recv"]))
+                if ("write" in chain) and not ({"truncate", "append", "create_new"} & chain):
+                    ctx.violate("fs.truncate", fn["path"], f"{fn['path']} opens a file for writing without truncating it (options: {sorted(chain)}): when the new text is shorter than the old file the old tail survives, "
+                                "so a stale or longer file never converges to the generated content", fn["file"], fn["line"])
+    ctx.rule("fs.truncate", k, floor=2, note="OpenOptions chains: write(true) requires truncate(true) / append / create_new")
     ctx.rule("fs.missing-target", m, floor=2, note="write-if-different helpers: the read of the existing target must not be unwrapped")
 
 
